@@ -135,8 +135,21 @@ def c14(tier, seed):
                 assumptions=ASSUME_COMMON)
 
 
+def tsan_any(runs, sub, seed, k0, thread_list, rounds, ops=1500):
+    """TSan with the 'any report' rule for containers written purely with C11 atomics (clean on the unmodified tree)"""
+    for i, thr in enumerate(thread_list):
+        for j, mode in enumerate(("nohook", "jitter")):
+            r = ds("tsan", sub, seed, k0 + 2 * i + j, thr, mode=mode, hist=1, rounds=rounds, ops=ops, timeout=900)
+            r.tsan_rule = "any"
+            runs.append(r)
+
+
 def c15(tier, seed):
-    return dict(runs=ds_plan(tier, seed, ["mpsc", "spsc", "mpscr"], ["MPSC_MID", "SPSC_MID"], ([2, 5, 8], [2, 3, 5, 8, 16])),
+    runs15 = ds_plan(tier, seed, ["mpsc", "spsc", "mpscr"], ["MPSC_MID", "SPSC_MID"], ([2, 5, 8], [2, 3, 5, 8, 16]))
+    q = tier == "quick"
+    tsan_any(runs15, "spsc", seed, 900, (2,) if q else (2, 2), 8 if q else 60)
+    tsan_any(runs15, "mpscr", seed, 920, (4,) if q else (3, 8), 8 if q else 60)
+    return dict(runs=runs15,
                 rule=HIST_RULE + "Oracles: no phantom, exactly-once, no loss, per-producer order in the consumer's program order, real-time FIFO "
                 "for the strict queues, EMPTY only if nothing was inside for the whole call or a push overlapped.",
                 min_events={"q_pop_empty": 1, "q_nodes_recycled": 100, "histories_with_overlap": 10, "MPSC_MID": 1, "SPSC_MID": 1},
@@ -438,6 +451,7 @@ def c11(tier, seed):
 
 def c20(tier, seed):
     runs = ds_plan(tier, seed, ["lifo", "dist", "stack"], ["CAS2_PRE"], ([2, 4, 8], [2, 3, 4, 8, 16]), rounds_q=60, rounds_t=600, ops=2000)
+    tsan_any(runs, "stack", seed, 940, (4,) if tier == "quick" else (3, 8), 8 if tier == "quick" else 60)
     runs += fb_plan(tier, seed + 7, "h_chan", "msignal", ["CAS2_PRE", "SIGNAL_WAIT_REGISTERED", "MAINT_PUBLISH", "SCHEDULED"], 16, 120,
                     extra=dict(livelock_prop="C20"), stall_every=4)
     return dict(runs=runs,
